@@ -88,9 +88,19 @@ func (s *DefaultStore) SaveBlockData(ctx context.Context, header *types.SignedHe
 
 	// A height saved again under another header: drop the hash index entry of the header that is
 	// replaced, otherwise GetBlockByHash(old hash) would return the new block.
-	if old, err := s.GetHeader(ctx, height); err == nil {
+	// A read that fails for another reason than "nothing stored" must not be mistaken for "no block to replace".
+	oldBlob, err := s.db.Get(ctx, ds.NewKey(getHeaderKey(height)))
+	if err != nil && !errors.Is(err, ds.ErrNotFound) {
+		return fmt.Errorf("failed to read the header stored at height %d: %w", height, err)
+	}
+	old := new(types.SignedHeader)
+	if err == nil && old.UnmarshalBinary(oldBlob) == nil {
 		if oldHash := old.Hash(); !bytes.Equal(oldHash, hash) {
-			if h, err := s.getHeightByHash(ctx, oldHash); err == nil && h == height {
+			indexed, err := s.db.Get(ctx, ds.NewKey(getIndexKey(oldHash)))
+			if err != nil && !errors.Is(err, ds.ErrNotFound) {
+				return fmt.Errorf("failed to read the index entry of the header stored at height %d: %w", height, err)
+			}
+			if h, derr := decodeHeight(indexed); err == nil && derr == nil && h == height {
 				if err := batch.Delete(ctx, ds.NewKey(getIndexKey(oldHash))); err != nil {
 					return fmt.Errorf("failed to delete stale index key in batch: %w", err)
 				}
